@@ -34,12 +34,13 @@ LEVEL_TEXT = (
     '"*"-rule support check cannot leak an exception. Topology-dependent '
     'rejections (buffer sharing, a tensor both quantized and unquantized) are '
     'NOT decided, except the empty-consumer-list guard.'
+    ' End-to-end simulations on label models: calibrate then plan generation, and the whole pipeline, raise nothing for static / dynamic / weight-only rule lists with unknown operators around.'
 )
 LEVEL_NOTE = (
     'Trusted: sa path enumerator, README operator table frozen in '
     'oracles.SUPPORTED_OPS. Not decided: rejections that depend on the graph.'
 )
-TECHNIQUE = 'schema validation of data files + decision tables + CFG guard rule (static)'
+TECHNIQUE = 'schema validation of data files + decision tables + CFG guard rule + end-to-end simulation of calibrate -> plan -> rewrite on label models (abstract interpretation) (static)'
 
 
 def r1_files(ctx):
